@@ -704,30 +704,56 @@ def _vogp_u_star(cone):
     return np.asarray(a.u_star, dtype=float)
 
 
+def _rect_cover_margin(W, d, H, sv):
+    """max over e ∈ [−H, H] (box-difference extents) of min_n w_n·(d + e − sv)/‖w_n‖₁ (LP, generator only)"""
+    from scipy.optimize import linprog
+
+    W = np.asarray(W, dtype=float)
+    N, m = W.shape
+    wn = np.abs(W).sum(axis=1)
+    # variables (e, t): maximise t  s.t.  W e − t·wn ≥ −W(d − sv)
+    A = np.hstack([-W, wn[:, None]])
+    bnd = [(-float(h), float(h)) for h in H] + [(None, None)]
+    r = linprog(np.r_[np.zeros(m), -1.0], A_ub=A, b_ub=W @ (np.asarray(d) - np.asarray(sv)), bounds=bnd, method="highs")
+    return float(r.x[-1]) if r.status == 0 else float("nan")
+
+
 def gen_slack_sensitive_case(rng, alg, cone, coverable):
-    """tiny boxes; the other design sits at distance ≈ the ε-slack ε·u* of a cone whose u* has a NEGATIVE
-    coordinate, so that the verdict depends on the exact slack vector: `coverable=True`: p − ε·u* is inside the
-    cone (coverable) while p − max(ε·u*, 0) is outside; `coverable=False`: the reverse."""
+    """Boxes NARROW in the objective where u* is negative and WIDE elsewhere, the other design displaced by about
+    the slack in that objective: the candidate is robustly NOT dominated (so discarding() keeps it and
+    epsiloncovering() decides), and whether it can still be ε-covered depends on the exact slack vector ε·u* —
+    with the negative entry clipped to 0 the verdict is the opposite.  `coverable` = verdict with the true slack."""
     W, _ = cone_order(cone)
     u = _vogp_u_star(cone)
     if u.min() >= -0.05:
         return None
+    m = len(u)
+    k0 = int(np.argmin(u))
     eps = rng.choice([0.5, 1.0, 2.0])
     sv = eps * u
     sc = np.clip(sv, 0.0, None)
-    h = eps / 2048.0
     wn = np.abs(W).sum(axis=1)
-    for scale in (0.05, 0.1, 0.2, 0.4):
-        delta = scale * eps * u  # u* is interior to the cone
-        p = (sv if coverable else sc) + delta
-        m_true = W @ (p - sv)
-        m_clip = W @ (p - sc)
-        need = 12 * h * wn
-        ok = (np.all(m_true >= need) and np.any(m_clip <= -need)) if coverable else \
-            (np.any(m_true <= -need) and np.all(m_clip >= need))
-        if ok:
-            ci = np.array([core.dyadic(rng, -4, 4, 2) for _ in range(len(u))])
-            cj = ci + p
+    for wide, a_, b_ in [(w_, x_, y_) for w_ in (4.0, 1.0, 0.25) for x_ in (-0.5, 0.5, -1.5, 1.5, -0.25, 0.25, 1.0, -1.0, 2.0, -2.0)
+                         for y_ in (0.0, 2.0, -2.0, 0.5, -0.5, 1.0, -1.0)]:
+        h = np.full(m, wide * eps)
+        h[k0] = eps / 2048.0
+        H = 2 * h
+        if True:
+            d = b_ * eps * np.ones(m)
+            d[k0] = a_ * abs(sv[k0])
+            mt, mc = _rect_cover_margin(W, d, H, sv), _rect_cover_margin(W, d, H, sc)
+            if not (np.isfinite(mt) and np.isfinite(mc)):
+                continue
+            thr = 0.02 * eps
+            if not ((mt >= thr and mc <= -thr) if coverable else (mt <= -thr and mc >= thr)):
+                continue
+            # candidate robustly not dominated by the other design (∀∀ with +slack fails)
+            corners = np.array(np.meshgrid(*[[-x, x] for x in H])).reshape(m, -1).T
+            dom = min(float(np.min((W @ (d + e + sv)) / wn)) for e in corners)
+            if dom > -thr:
+                continue
+            ci = np.array([core.dyadic(rng, -4, 4, 2) for _ in range(m)])
+            cj = ci + d
             return {"kind": "placed", "shape": "slack-sensitive-" + ("covers" if coverable else "cannot"), "alg": alg,
                     "cone": cone, "eps": float(eps), "n": 2, "S": [0, 1], "P": [],
                     "lower": [list(map(float, ci - h)), list(map(float, cj - h))],
